@@ -38,7 +38,8 @@ def run(res, tier):
             raise Inconclusive("throttle-run errors: " + "; ".join(s["errors"][:3]))
         n, bad, st = validate_traces(tmp, tr, "throttle_traces.ndjson", "L4ThrottleTrace.tla", "L4ThrottleTrace.cfg")
         cov.update(traces_validated_against_impl=n, runs=dict(scenarios=s["runs"], pull_events=s["pull_events"],
-                   grid="per-connection rate x burst, total limit none | equal | total only, latency 0 | 120 ms, reader buffer 1..65536, 1-4 concurrent connections of one handler; enumerated by TLC from L4ThrottleGrid"),
+                   udp_runs=s.get("udp_runs", 0),
+                   grid="per-connection rate x burst, total limit none | equal | total only | none at all (latency only), latency 0 | 120 ms, reader buffer 1..65536, 1-4 concurrent connections of one handler; enumerated by TLC from L4ThrottleGrid; plus the throttle over UDP virtual connections (three datagrams of 1x, 2x, 2.5x and 3x the burst through the real servePacket loop, judged by G4)"),
                    samples=s["samples"][:2] or [dict(note="no short sample")])
         traces = {}
         for line in open(tr):
